@@ -10,7 +10,8 @@ PROP=$(python3 -c "import json,sys;print(json.load(open('$D/meta.json'))['proper
 IDS="${*:-$PROP}"
 WT=/tmp/seedeval.$$
 git -C /repo worktree add -q --detach $WT HEAD || exit 2
-cleanup() { git -C /repo worktree remove --force $WT 2>/dev/null; git -C /repo checkout -q -- . ; git -C /repo clean -fdq; }
+rm -rf /verif/.build/evidence.keep.$$; cp -a /verif/evidence /verif/.build/evidence.keep.$$
+cleanup() { rm -rf /verif/evidence; mv /verif/.build/evidence.keep.$$ /verif/evidence; rm -rf /verif/replays/*; git -C /repo worktree remove --force $WT 2>/dev/null; git -C /repo checkout -q -- . ; git -C /repo clean -fdq; }
 trap cleanup EXIT
 cd $WT
 demo=zz_seed_demo_test.go
